@@ -57,6 +57,10 @@ def step_line(m, st) -> str:
         return f"{now};close;{inp[1]}"
     if k == "threshold":
         return f"{now};threshold;{inp[1]};{inp[2]}"
+    if k == "react":
+        msg = W.message(inp[3], inp[4], inp[5])
+        raw = msg.encode("utf8") if isinstance(msg, str) else msg
+        return f"{now};react;{inp[1]};{inp[2]};{int(isinstance(msg, str))};{hx(raw)}"
     raise ValueError(k)
 
 
@@ -68,6 +72,8 @@ def out_token(ev) -> str:
         return f"{k}:{ev[1]}"
     if k in ("open", "close", "low"):
         return f"{k}:{ev[1]}"
+    if k == "rexc":
+        return f"rexc:{ev[1]}:{ev[2]}"
     if k == "message":
         msg = ev[2]
         if isinstance(msg, str):
